@@ -139,6 +139,48 @@ def build(ne, np_, nc, tuples):
     return c
 
 
+def _placeholder(t):
+    """an operation on the same registers as `t` but of another kind (used to reach `t` through `replace_op`); None if there is none"""
+    k = t[0]
+    if k == "one":
+        return ("one", "Identity" if t[1] != "Identity" else "Hadamard", t[2])
+    if k == "wrap":
+        return ("one", "Identity", t[2])
+    if k == "ctrl":
+        return ("ctrl", "CZ" if t[1] == "CNOT" else "CNOT", t[2], t[3])
+    if k == "cctrl":
+        others = [g for g in ("ClassicalCNOT", "ClassicalCZ") if g != t[1]]
+        return ("cctrl", others[0], t[2], t[3], t[4])
+    return None
+
+
+def build_history(ne, np_, nc, tuples, mode="replace", pick=None):
+    """the same final circuit as `build`, reached through another edit history: every operation selected by `pick(k, t)` (default: all)
+    enters the circuit by `replace_op` of a placeholder of another kind (mode 'replace') or by `insert_at` on the output edges of its
+    quantum registers (mode 'insert'; only operations without classical register, whose wire `insert_at` does not thread)."""
+    from graphiq.circuit.circuit_dag import CircuitDAG
+
+    c = CircuitDAG(n_emitter=ne, n_photon=np_, n_classical=nc)
+    for k, t in enumerate(tuples):
+        sel = pick(k, t) if pick else True
+        ph = _placeholder(t) if (sel and mode == "replace") else None
+        if ph is not None:
+            c.add(mk_op(ph))
+            node = max(n for n in c.dag.nodes if isinstance(n, int))
+            c.replace_op(node, mk_op(t))
+        elif sel and mode == "insert" and t[0] in ("one", "wrap", "ctrl"):
+            op = mk_op(t)
+            edges = []
+            for rt, r in zip(op.q_registers_type, op.q_registers):
+                out = f"{rt}{r}_out"
+                (u, v, key), = [(u, v, key) for u, v, key in c.dag.in_edges(out, keys=True)]
+                edges.append((u, v, key))
+            c.insert_at(op, edges)
+        else:
+            c.add(mk_op(t))
+    return c
+
+
 def regs_of(circ):
     return (circ.n_emitters, circ.n_photons, circ.n_classical)
 
